@@ -99,7 +99,7 @@ def field_line_language():
     return z3.Concat(rfc.TOKEN, z3.Re(":"), clean)
 
 
-@unit("C01", "hdr.parse_headers", functions=[f"{MOD}:HeadersParser.parse_headers"])
+@unit("C01", "hdr.parse_headers", functions=[f"{MOD}:HeadersParser.parse_headers"], also=("C10",))
 def parse_headers_unit(u: U):
     """strict HeadersParser.parse_headers: every accepted line is a well-formed RFC 9112 field line (token name, no
     whitespace around the name, no control bytes, no folding), one pair per line in order, repeated singleton fields
@@ -233,7 +233,7 @@ class _Hdrs:
         return self.values.get(str(name)) is not None
 
 
-@unit("C01", "clte", functions=[f"{MOD}:HttpParser.parse_headers"])
+@unit("C01", "clte", functions=[f"{MOD}:HttpParser.parse_headers"], also=("C10", "C02"))
 def clte(u: U):
     """HttpParser.parse_headers: Transfer-Encoding together with Content-Length is refused; chunked only on the word of
     _is_chunked_te; nothing but HTTP protocol errors escape."""
@@ -288,7 +288,7 @@ class _URL:
         self.absolute = u.bool("url.absolute")
 
 
-@unit("C01", "request_line", functions=[f"{MOD}:HttpRequestParser.parse_message"])
+@unit("C01", "request_line", functions=[f"{MOD}:HttpRequestParser.parse_message"], also=("C10", "C02"))
 def request_line(u: U):
     """HttpRequestParser.parse_message: accepted => request line is exactly token SP target SP HTTP/d.d; HTTP/1.1
     without Host is refused; defaults for keep-alive follow the version; only HTTP protocol errors escape (C10)."""
